@@ -84,6 +84,10 @@ type stubExecutor struct {
 
 func (e *stubExecutor) RunSmcMethodByID(ctx context.Context, id ton.AccountID, method int, params tlb.VmStack) (uint32, tlb.VmStack, error) {
 	e.asked = append(e.asked, id)
+	// a real executor runs the method it is ASKED for: get_public_key is method id 78748, called with an empty stack
+	if method != 78748 || len(params) != 0 {
+		return 0, nil, fmt.Errorf("stub executor: unexpected method %d / %d parameters", method, len(params))
+	}
 	switch {
 	case e.mode == "fail:err":
 		return 0, nil, errors.New("scripted executor error")
@@ -316,8 +320,11 @@ func exTcCheck(a []string) string {
 		StateInit: stateInitString(a[10])}}
 	ok, key, err := srv.CheckProof(context.Background(), p,
 		func(string) (bool, error) {
-			if a[2] == "1" {
+			switch a[2] {
+			case "1":
 				return true, nil
+			case "n": // refused WITHOUT an error value: (false, nil)
+				return false, nil
 			}
 			return false, errors.New("payload refused")
 		},
@@ -948,6 +955,11 @@ func genC19(g *h.G) {
 		g.Count(fmt.Sprintf("payload_%s_time%d", what, kind))
 		g.Emit("tc.payload", h.Hex(secret), h.Hex(p), fmt.Sprint(nowNs), fmt.Sprint(life))
 	}
+	// ---- payloads of every short / long EVEN hex length (they pass hex decoding and reach the length guard), and the empty one
+	for _, n := range []int{0, 1, 2, 8, 15, 16, 17, 31, 33, 64} {
+		g.Count("payload_even_hex_len")
+		g.Emit("tc.payload", h.Hex([]byte("secret")), h.Hex([]byte(hex.EncodeToString(g.Bytes(n)))), fmt.Sprint(nowNs), fmt.Sprint(life))
+	}
 	// ---- public keys with leading zero bytes, through the get-method path and the state-init path
 	for _, seed := range zeroKeySeeds {
 		for _, ver := range []wallet.Version{wallet.V3R2, wallet.V4R2, wallet.V5R1} {
@@ -995,6 +1007,32 @@ func genC19(g *h.G) {
 			// honest, key from the getter / from the state-init / state-init absent
 			c := base()
 			c.emit(g, nowNs, known, seed)
+			// deterministic cycle (not left to the random draw): the payload callback refusing with (false, nil); get-method
+			// integers of 31, 32, 33 and 64 significant bytes (33 and 64 exceed a key: error, never a panic; fallback to the
+			// state init)
+			c = base()
+			c.payloadOk = "n"
+			g.Count("payload_callback_false_nil")
+			c.emit(g, nowNs, known, seed)
+			{
+				n := []int{31, 32, 33, 64}[(i+int(ver))%4]
+				k := g.Bytes(n)
+				k[0] |= 1
+				c = base()
+				c.getter = "int:" + new(big.Int).SetBytes(k).String()
+				if n <= 32 {
+					c.cand = append(c.cand, append(make([]byte, 32-n), k...))
+				}
+				g.Count(fmt.Sprintf("getter_int_%d_bytes", n))
+				c.emit(g, nowNs, known, seed)
+				c = base()
+				c.getter = "int:" + new(big.Int).SetBytes(k).String()
+				c.stateInit = "empty"
+				if n <= 32 {
+					c.cand = append(c.cand, append(make([]byte, 32-n), k...))
+				}
+				c.emit(g, nowNs, known, seed)
+			}
 			c = base()
 			c.getter = failModes[g.Rng.Intn(len(failModes))]
 			g.Count("getter_" + c.getter)
